@@ -64,3 +64,21 @@ From Sbepp Require Import Cursor CursorSpec Checked ScriptSpec ScriptProofs.
 Theorem C01_encode_script_produces_wire_image : stmt_encode_script_image.
 Proof. exact encode_script_image. Qed.
 Print Assumptions C01_encode_script_produces_wire_image.
+
+From Sbepp Require Import Compile CompileSpec CompileProofs.
+
+(* accepted schemas compile to well-formed tables: dimensions (members inside
+   the composite, blockLength/numInGroup disjoint and unsigned), levels (fields
+   inside the block, data length types unsigned), header geometry, fills inside
+   the header -- the hypotheses of the encoding/decoding theorems *)
+Theorem C01_accepted_schema_dimension_wf : stmt_compile_dim_wf.
+Proof. exact compile_dim_wf. Qed.
+Print Assumptions C01_accepted_schema_dimension_wf.
+
+Theorem C01_accepted_schema_level_wf : stmt_compile_level_table_wf.
+Proof. exact compile_level_table_wf. Qed.
+Print Assumptions C01_accepted_schema_level_wf.
+
+Theorem C01_accepted_schema_message_header_ok : stmt_compile_message_header_ok.
+Proof. exact compile_message_header_ok. Qed.
+Print Assumptions C01_accepted_schema_message_header_ok.
